@@ -101,13 +101,18 @@ def parlit(t, n, first_rows=None):
     for (i, j), v in items: toks += [str(i), str(j), nums.tok_num(v)]
     return toks
 
-def vec_toks(v): return [nums.tok_num(x) for x in v]
+def num_tok(x):
+    x = Fraction(x)
+    if abs(x.numerator) < 2 ** 53 and x.denominator <= 2 ** 61: return nums.tok_num(x)
+    return float(x).hex()        # large / very small magnitudes: exact hex float (the generators only produce doubles there)
 
-def case_line(cid, cls, opts, t, n, first_rows, vecs, ops):
+def vec_toks(v): return [num_tok(x) for x in v]
+
+def case_line(cid, cls, opts, t, n, first_rows, vecs, ops, dump=1):
     """opts: dict coarsen interp strength theta relax omega sweeps max_coarse max_levels tap tol"""
     head = [cid, cls, str(opts["coarsen"]), str(opts["interp"]), str(opts["strength"]), nums.tok_num(opts["theta"]),
             str(opts["relax"]), nums.tok_num(opts["omega"]), str(opts["sweeps"]), str(opts["max_coarse"]),
-            str(opts["max_levels"]), str(opts["tap"]), "1", nums.tok_num(opts["tol"])]
+            str(opts["max_levels"]), str(opts["tap"]), str(dump), nums.tok_num(opts["tol"])]
     toks = head + ["MAT"] + parlit(t, n, first_rows) + ["VECS", str(len(vecs))]
     for v in vecs: toks += vec_toks(v)
     toks += ["OPS", str(len(ops))]
